@@ -298,6 +298,7 @@ def gen_ug(rng, tier, kind, prefix="m", n=None):
             for f in factors:
                 f["values"] = [x * s for x in f["values"]]
             feats.append("scaled-all")
+            spec["scale_all"] = s
         else:
             f = rng.choice(factors)
             f["values"] = [x * s for x in f["values"]]
@@ -309,6 +310,7 @@ def gen_ug(rng, tier, kind, prefix="m", n=None):
             f["values"] = [(1.0 + 1e-7 * rng.randint(-9, 9)) / card[f["vars"][-1]] for _ in f["values"]]
             _make_distinct(rng, factors, card)
             feats.append("weak-factor")
+            spec["weak"] = factors.index(f)
     if kind == "mn":
         edges = []
         for a, b in _scope_pairs(factors) + [tuple(e) for e in extra_edges]:
@@ -369,6 +371,7 @@ def gen_jt(rng, tier, prefix="j", n=None):
         for f in factors:
             f["values"] = [x * s for x in f["values"]]
         feats.append("scaled-all")
+        spec["scale_all"] = s
     spec["feats"] = feats
     return spec
 
@@ -398,6 +401,7 @@ def gen_bn(rng, tier):
                 cols.append(col)
             bn["cpds"][v]["table"] = [[cols[j][i] for j in range(q)] for i in range(r)]
             feats.append("weak-factor")
+            bn["weak"] = v
     bn["feats"] = feats
     return bn
 
@@ -520,7 +524,7 @@ def _disagreement(bp, operation):
     """max over tree edges of the relative disagreement between the two clique beliefs reduced to the
     sepset and the stored sepset belief (own arithmetic on .variables/.values; read-only)."""
     from rv.build import to_np
-    worst = 0.0
+    worst, explained = 0.0, True
     for (a, b) in bp.junction_tree.edges():
         S = sorted(set(a) & set(b), key=repr)
         arrs = []
@@ -537,7 +541,10 @@ def _disagreement(bp, operation):
         if scale > 0:
             d = max(float(np.max(np.abs(arrs[0] - arrs[1]))), float(np.max(np.abs(arrs[0] - arrs[2]))))
             worst = max(worst, d / scale)
-    return worst
+        # is the accepted disagreement what DiscreteFactor.__eq__'s documented tolerance lets through?
+        explained = explained and bool(np.allclose(arrs[1], arrs[0], atol=1e-8, rtol=1e-5)) and \
+            bool(np.allclose(arrs[2], arrs[0], atol=1e-8, rtol=1e-5))
+    return worst, explained
 
 
 def _ensure_monitors():
@@ -577,11 +584,11 @@ def _ensure_monitors():
         try:
             _MON["conv_evals"] += 1
             if ret:
-                d = _disagreement(self, operation)
+                d, explained = _disagreement(self, operation)
                 loose = d > 1e-9
                 if loose:
                     _MON["conv_loose"] += 1
-                _MON["conv_log"].append(loose)
+                _MON["conv_log"].append((loose, explained))
         except Exception:
             pass
         return ret
@@ -701,7 +708,10 @@ class _Span:
         for s in _MON["jt_log"][self.j0:]:
             fl |= s
         self.res.flawed[self.label] = self.res.flawed.get(self.label, set()) | fl
-        self.res.loose[self.label] = self.res.loose.get(self.label, False) or any(_MON["conv_log"][self.c0:])
+        seen = [e for (l, e) in _MON["conv_log"][self.c0:] if l]
+        if seen:        # "explained": every loosely accepted state is within allclose(atol=1e-8, rtol=1e-5)
+            self.res.loose[self.label] = "explained" if all(seen) and self.res.loose.get(self.label) != "other" \
+                else "other"
         return False
 
 
@@ -901,7 +911,8 @@ def evaluate(spec, ctx, states, nodes, J):
         fresh_ok = run_query(res, "query0", ctx, e0, qs[0], nodes, J, states, qs[0]["joint"], eflaw[id(e0)])
         if fresh_ok and not qs[0]["virt"]:
             q = dict(qs[-1], virt=[])
-            run_query(res, "requery", ctx, e0, q, nodes, J, states, not q["joint"], eflaw[id(e0)])
+            run_query(res, "requery", ctx, e0, q, nodes, J, states, not q["joint"],
+                      eflaw[id(e0)] | res.flawed.get("query0", set()))
     # engine 1: max-calibration -> max-marginals -> query on that engine (must re-calibrate by sum)
     e1 = engine("max_calibrate")
     if e1 is not None:
@@ -921,6 +932,34 @@ def evaluate(spec, ctx, states, nodes, J):
             if e is not None:
                 run_query(res, label, ctx, e, q, nodes, J, states, joint, eflaw[id(e)])
     return res
+
+
+def _neutral_spec(spec):
+    """The same case with the triggering features of the two known mechanisms removed: potentials scaled back
+    to O(1) and the near-uniform factor / CPD replaced by a strongly informative one (state names are made
+    identity by the caller)."""
+    M = spec["model"]
+    N = dict(M)
+    if M.get("scale_all"):
+        N["factors"] = [dict(f, values=[x / M["scale_all"] for x in f["values"]]) for f in M["factors"]]
+    if "weak" in M and spec["kind"] == "bn":
+        v = M["weak"]
+        r, q = M["card"][v], len(M["cpds"][v]["table"][0])
+        cols = []
+        for j in range(q):
+            col = [1.0 + 2.0 * ((i + j) % r) for i in range(r)]
+            t = sum(col)
+            col = [c / t for c in col]
+            col[0] = 1.0 - sum(col[1:])
+            cols.append(col)
+        N["cpds"] = dict(M["cpds"])
+        N["cpds"][v] = dict(M["cpds"][v], table=[[cols[j][i] for j in range(q)] for i in range(r)])
+    elif "weak" in M:
+        fs = list(N["factors"])
+        f = fs[M["weak"]]
+        fs[M["weak"]] = dict(f, values=[0.3 + 1.1 * ((7 * i) % 5) for i in range(len(f["values"]))])
+        N["factors"] = fs
+    return dict(spec, model=N)
 
 
 def run_sentinel(spec, ctx):
@@ -963,17 +1002,21 @@ def run_case(spec, ctx):
     if not res.problems:
         return
 
-    # ---- attribution.  A label's alarms are attributed to a known mechanism only if the mechanism was
-    # observed by the return-value monitor during that very label AND (for the state-name mechanism) the
-    # same case with the triggering feature neutralised (identity state names) passes that label.
+    # ---- attribution.  An alarm is attributed to a known mechanism only if (i) the return-value monitor
+    # saw that mechanism at work during that very label and (ii) the same label is clean when the case is
+    # re-run with the triggering features neutralised (identity state names; potentials scaled back to O(1)).
     identity = {v: list(range(M["card"][v])) for v in nodes}
     neutral = None
-    if any(list(states[v]) != identity[v] for v in nodes) and \
-            any(res.flawed.get(l) for l in res.problems):
+    named = any(list(states[v]) != identity[v] for v in nodes)
+    conditioned = bool(M.get("scale_all")) or "weak" in M      # potentials the convergence tolerance is not made for
+    if (named and any(res.flawed.get(l) for l in res.problems)) or \
+            (conditioned and any(res.loose.get(l) for l in res.problems)):
+        nspec = _neutral_spec(spec)
+        nJ = _joint(nspec)[1] if "weak" in M else J
         save = (list(_MON["jt_log"]), list(_MON["conv_log"]))
         sub = type(ctx)(ctx.prop, ctx.tier, backend=ctx.backend, hashseed=ctx.hashseed)
         try:
-            neutral = evaluate(spec, sub, identity, nodes, J)
+            neutral = evaluate(nspec, sub, identity, nodes, nJ)
         except Exception:
             neutral = None
         _MON["jt_log"][:], _MON["conv_log"][:] = save
@@ -985,17 +1028,15 @@ def run_case(spec, ctx):
         name_p = [p for p in probs if p[0] in NAME_KEYS or p[0].startswith("c02:exception:KeyError@")]
         val_p = [p for p in probs if p[0] in VALUE_KEYS]
         generic = [p for p in probs if p not in name_p and p not in val_p]
-        loose = bool(res.loose.get(label))
+        loose = res.loose.get(label)
         flawed = res.flawed.get(label, set()) & rel
-        # the neutralised run of this label must have been judged and be clean (or show nothing but the
-        # consequences of a loosely accepted convergence, which identity state names cannot remove)
-        neutral_clean = neutral is not None and (label in neutral.oks or label in neutral.problems) and (
-            label not in neutral.problems or
-            (neutral.loose.get(label) and all(k in VALUE_KEYS for k, _, _ in neutral.problems[label])))
-        names_ok = bool(flawed) and neutral_clean
-        if val_p and loose:
+        neutral_clean = neutral is not None and label in neutral.oks and label not in neutral.problems
+        names_ok = bool(flawed) and named and neutral_clean
+        tol_ok = loose == "explained" and conditioned and neutral_clean
+        if val_p and tol_ok:
             ctx.violation(KEY_TOL, f"{label}: _is_converged answered True while the beliefs still disagreed on a sepset "
-                          f"(> 1e-9 relative); consequence: [{val_p[0][0]}] {val_p[0][1]}", label=label,
+                          f"(> 1e-9 relative, within allclose(atol=1e-8, rtol=1e-5)) on {M.get('feats')} potentials; "
+                          f"consequence: [{val_p[0][0]}] {val_p[0][1]}", label=label,
                           feats=M.get("feats"))
         elif val_p and names_ok:
             name_p = val_p + name_p
